@@ -2,8 +2,8 @@
    and class environments.  Executable; no proofs here. *)
 From Coq Require Import ZArith NArith String List Bool.
 Import ListNotations.
-From TP Require Import Base.PyVal Fields.FieldAst Fields.SetChain Struct.Instance Ser.Json Ser.Serialize
-  Ser.Deserialize.
+From TP Require Import Base.PyVal Base.PyEq Fields.FieldAst Fields.SetChain Struct.Instance Ser.Json Ser.Serialize
+  Ser.Deserialize Ser.DocReading.
 Local Open Scope Z_scope.
 
 (* a TypeError/ValueError, or one of the two artefacts of the model (never raised by Python) *)
@@ -59,3 +59,16 @@ Definition c06_cls (f : field) : classdef :=
      c_hook := HookNone |}.
 Definition c06_flags : dflags := {| df_ignore_invalid := true; df_compact := false |}.
 Definition c06_doc (v : pyval) : pyval := PDict [(PStr (s2p "t"), v)].
+
+(* ---- the agreement clause on the scalar fragment (Ser/AgreeProofs.v) *)
+Definition scalar_field (f : field) : bool :=
+  match f with FNumber _ _ _ | FString _ | FBoolean | FEnumLit _ | FAnything => true | _ => false end.
+
+Definition scalar_class (c : classdef) : bool := forallb (fun fd => scalar_field (fd_field fd)) (c_fields c).
+
+(* the model declines to predict *)
+Definition mdeclines {A} (r : res A) : bool := match r with Raise x => model_exn x | _ => false end.
+
+(* result-equivalent (both accept with == instances, or both raise a TypeError/ValueError), or one of the two
+   models declines *)
+Definition agree (a b : res pyval) : bool := mdeclines a || mdeclines b || res_equiv_tv a b.
